@@ -107,3 +107,14 @@ Fixpoint gin_loop (stop : bool -> bool -> bool) (ms : list (nat * gmw)) (written
   end.
 Definition template_stop (aborted written : bool) : bool := aborted.
 Definition stop_when_written (aborted written : bool) : bool := aborted || written.
+
+(** * Mounting.  HandlerWithOptions / RegisterHandlersWithOptions copy the middlewares of the options value into the
+      wrapper (or install them on the router) whatever else the options carry: an error handler of the caller's, a base
+      URL.  [mount] is what the templates do; [mount_under_default_error_handler] is the variant that stores the
+      middlewares only on the branch that installs the default error handler (refuted in the proofs). *)
+Record options := { o_mws : list mw; o_error_handler : bool; o_base_url : bool }.
+Definition mount (o : options) : slice := indexed (o_mws o).
+Definition mount_under_default_error_handler (o : options) : slice :=
+  if o_error_handler o then [] else indexed (o_mws o).
+Definition mounted_trace (mnt : options -> slice) (fw : flavour) (ftl : bool) (strict : option (list mw)) (o : options)
+  : list event := snd (serve fw ftl strict (mnt o)).
